@@ -73,7 +73,10 @@ def main(tier):
     scs = json.load(open(gf))
     rnd = random.Random(V.seed())
     if quick:
-        scs = rnd.sample([x for x in scs if x['geo'] == 0 and x['reg'] == 0], 250) + rnd.sample([x for x in scs if x['geo'] == 1 and x['reg'] == 0], 100) + rnd.sample([x for x in scs if x['reg'] == 1], 60)
+        def some(pred, k):
+            pool = [x for x in scs if pred(x)]
+            return rnd.sample(pool, min(k, len(pool)))
+        scs = some(lambda x: x['geo'] == 0 and x['reg'] == 0, 700) + some(lambda x: x['geo'] == 1 and x['reg'] == 0, 300) + some(lambda x: x['reg'] == 1, 150)
     hists = [scenario_ops(sc, rnd) for sc in scs]
     scen = os.path.join(d, 'scen.txt')
     cfgs = []
@@ -131,6 +134,8 @@ def main(tier):
                 key = 'hyperedge:improver-adding-deleting-junctions:tree-broken'
             if key == 'hyperedge:route-does-not-join-its-attachments' and sc['follow'] == 1:
                 key = 'hyperedge:after-terminal-shape-move:route-does-not-reach-pin'
+            if key == 'hyperedge:route-does-not-join-its-attachments' and sc['follow'] == 3:
+                key = 'hyperedge:after-shape-and-junction-move:route-does-not-reach-pin'
             vd.violation(key, '%s: scenario=%s mode=%d -> %s' % (t, json.dumps(sc), x['mode'], json.dumps(brief)[:700]),
                          {'scenario': sc, 'mode': x['mode'], 'ops': hists[meta[i - 1]], 'snapshot': brief})
     ev.cov['evaluations'] = len(recs)
